@@ -387,6 +387,114 @@ def nominal_degree(name, n):
 SHUNN_HAM_DOC = {1: 1, 2: 2, 3: 3, 4: 5, 5: 6, 6: 7}  # Shunn & Ham 2012, table 2 (n -> degree)
 
 
+DIGITS = set("0123456789")
+TRIMS = ("trim", "trim_front", "trim_back")
+
+
+def _or_leaves(c):
+    """operands of a (possibly nested) || chain"""
+    if c.get("k") == "Bin" and c.get("op") == "||":
+        return _or_leaves(c["lhs"]) + _or_leaves(c["rhs"])
+    return [c]
+
+
+def _parse_body_checks_rest(facts):
+    """does String::parse<T> itself verify that the whole string was consumed?  True / False / None (not understood)"""
+    verdict = None
+    for f in facts.functions:
+        if f.tk == "pattern" or f.name != "parse" or not f.cls.endswith("String") or not f.params:
+            continue
+        t = f.type(f.params[0]["t"])
+        if not re.match(r"^(unsigned |signed )?(int|long|short|char)( long)?( int)? &$", t.replace("unsigned long", "long")):
+            continue
+        names = {n.get("n") for n in f.nodes() if n.get("k") == "MCall"}
+        if names & {"eof"}:
+            v = True
+        elif names & {"peek", "get", "tellg", "rdbuf", "in_avail", "rdstate", "good"}:
+            v = None
+        else:
+            v = False
+        verdict = v if verdict in (None, v) or verdict is None else None
+        if v is None:
+            return None
+    return verdict
+
+
+def check_param_fully_parsed(ck, facts):
+    RULE = "E7.param-fully-parsed"
+    body_checks = _parse_body_checks_rest(facts)
+    seen = {}
+    for f in facts.functions:
+        if f.tk == "pattern" or "/kernel/cubature/" not in f.file:
+            continue
+        for n in f.nodes():
+            if not (n.get("k") == "MCall" and n.get("n") == "parse" and n.get("callee", "").endswith("String::parse")):
+                continue
+            pt = [f.type(t) for t in n.get("pt", [])]
+            if not pt or not re.search(r"\b(int|long|short)\b", pt[0]):
+                continue          # only numeric parameters
+            key = "%s::%s/%s" % (strip_targs(f.cls), f.name, featlib.render(n["a"][0]) if n.get("a") else "?")
+            obj = n.get("obj")
+            while obj is not None and obj.get("k") == "MCall" and obj.get("n") in TRIMS:
+                obj = obj.get("obj")
+            ok, detail, undecided = False, "", False
+            if body_checks is True:
+                ok, detail = True, "String::parse itself requires the whole string to be consumed"
+            elif obj is None or obj.get("k") != "Ref" or obj.get("dk") not in ("local", "param"):
+                if body_checks is None:
+                    undecided, detail = True, "String::parse body not understood and the parsed string `%s` is a temporary" % featlib.render(n.get("obj"))
+                else:
+                    detail = ("the parameter string `%s` is parsed with String::parse (accepts any prefix that is a number) and is not validated "
+                              "as a whole: e.g. '<name>:2x' or '<name>:2:3' is answered with the rule for 2" % featlib.render(n.get("obj")))
+            else:
+                d = obj["d"]
+                # the If whose condition contains this parse call
+                holder = None
+                for m in f.nodes():
+                    if m.get("k") == "If" and any(x is n for x in featlib.walk(m.get("c"))):
+                        holder = m
+                fail_render = featlib.render(holder.get("then")) if holder is not None else None
+                other_uses = 0
+                for m in f.nodes():
+                    if m.get("k") != "If":
+                        continue
+                    for leaf in _or_leaves(m.get("c")):
+                        uses = [x for x in featlib.walk(leaf) if x.get("k") == "Ref" and x.get("d") == d]
+                        if not uses or any(x is n for x in featlib.walk(leaf)):
+                            continue
+                        good = False
+                        if leaf.get("k") == "Bin" and leaf.get("op") == "!=":
+                            for a, b in ((leaf["lhs"], leaf["rhs"]), (leaf["rhs"], leaf["lhs"])):
+                                if (a.get("k") == "MCall" and a.get("n") == "find_first_not_of" and a.get("obj", {}).get("d") == d
+                                        and a.get("a") and a["a"][0].get("k") == "Str" and a["a"][0].get("v") and set(a["a"][0]["v"]) <= DIGITS
+                                        and set(a["a"][0]["v"]) == DIGITS and b.get("k") == "Member" and b.get("n") == "npos"):
+                                    good = True
+                                    fnof = a
+                        if good:
+                            same_if = m is holder
+                            fails = featlib.render(m.get("then")) == fail_render
+                            dominates = f.cfg is None or f.cfg.stmt_dominates(fnof["i"], n["i"]) or same_if
+                            if fails and dominates:
+                                ok = True
+                                detail = "`%s.find_first_not_of(\"0123456789\") != npos` leads to the failure return before the value is used" % obj.get("n")
+                        elif not (leaf.get("k") == "MCall" and leaf.get("n") == "empty"):
+                            other_uses += 1
+                if not ok:
+                    if other_uses or body_checks is None:
+                        undecided, detail = True, "parameter string `%s` is tested by a condition this rule does not understand" % obj.get("n")
+                    else:
+                        detail = ("the parameter string `%s` is parsed with String::parse (accepts any prefix that is a number) and no condition "
+                                  "validates the whole string: e.g. '<name>:2x' or '<name>:2:3' is answered with the rule for 2" % obj.get("n"))
+            if undecided:
+                ck.incomplete(RULE, "%s: %s" % (key, detail))
+                continue
+            prev = seen.get(key)
+            if prev is not None and prev == ok:
+                continue
+            seen[key] = ok
+            ck.ob(RULE, key, ok, detail, f.file, n.get("l", f.line))
+
+
 def run(tier):
     ck = Check("C14", tier)
     ck.rule("E9.extract", "every (factory, n) entry point of the cubature layer folds to a complete constant table: the rule is created with count(n) points, every point index receives exactly one weight and dim coordinates, none outside the table", 100)
@@ -398,8 +506,10 @@ def run(tier):
     ck.rule("E9.refine", "refine:<rule> keeps the weight sum and the degree of its base rule", 10)
     ck.rule("E13.auto-degree", "auto-degree:d maps, for every d <= max_degree, to a rule whose established degree is >= d", 30)
     ck.rule("E7.unknown-refused", "DynamicFactory::create returns true only through a factory whose name comparison succeeded; create_throw throws on false", 6)
+    ck.rule("E7.param-fully-parsed", "every numeric name parameter (point count, refine count, degree) read with String::parse - a prefix parse - is "
+            "accepted only if the whole parameter string was validated (digits only), so a malformed name is refused instead of answered with another rule", 4)
 
-    facts = featlib.extract("tu/cubature.cpp", files=CUB + "|/verif/tu/")
+    facts = featlib.extract("tu/cubature.cpp", files=CUB + "|/verif/tu/|" + featlib.repo_path("kernel/util/string.hpp"))
     ck.tu(facts)
     bad = facts.errors_in_repo() + facts.errors_outside_repo()
     if bad:
@@ -853,6 +963,9 @@ def run(tier):
                         if not any(cfg.stmt_dominates(ci, n["i"]) for ci in cmp_ids):
                             ok = False
             ck.ob("E7.unknown-refused", "name-check/" + f.full[:110], ok, "name comparison (compare_no_case != 0 -> return false) dominates every successful return" if ok else "a successful return is reachable without the name comparison", f.file, f.line)
+
+    # ---- numeric name parameters are validated as a whole --------------------------------------------------
+    check_param_fully_parsed(ck, facts)
 
     expl = ("Static constant propagation (engine E9) over the cubature drivers and factories as parsed by clang from /repo: every factory entry point "
             "create(rule[,n]) reachable from DynamicFactory for the six reference shapes is folded for every admissible n (and n just outside the range); "
